@@ -34,6 +34,18 @@ R = {
    text="NumTheory.tla states the mathematical meaning of every helper by different algorithms than the code; TLC checks cross-consistency lemmas, emits expected-result tables over exhaustive small domains that are replayed on the real helpers, and validates call records (incl. aliased-operand variants) streamed from the real code against the postconditions; random large operands are checked by the same relations in math/big and reported separately.",
    note="TLC arithmetic is 32-bit: exhaustive only for p < 2^8..2^12, n < 2^14..2^20, b <= 9..12; large operands (<= 4096 bits) are a weaker differential check against math/big.",
    tech="TLA+ mathematical definitions evaluated by TLC; tables replayed on and call records validated from the real code"),
+ "C05": dict(engine="CLSig.tla", design="5/C05, 13",
+   text="TLC checks Sound and Complete of CLSig.tla over a forger that holds the private key (any exponent class around the toy interval, any block, keyshare contribution and key, one alteration of the checked tuple, randomisation); every emitted case is forged for real with the 1024-bit private keys and given to CLSignature.Verify, the harness deciding interval membership, primality and block equality itself; issuer signatures over random boundary-sized blocks of every length are verified before and after randomisation.",
+   note="Generic-group uniqueness of representations assumed; [M]/[H(M)] and trailing zeros are equal blocks by design of the scheme; 1024-bit keys.",
+   tech="TLA+ symbolic forger model + TLC exhaustive model checking; generated forgeries replayed on the real verifier"),
+ "C12": dict(engine="RangeStmt.tla", design="5/C12, 13",
+   text="RangeStmt.tla transcribes the statement logic of range proofs (descriptor construction incl. three-square rescaling, ProvesStatement, ProvenStatement, ExtractStructure checks, machine-word conversion at a toy word size) and the attachment of range proofs to a ProofD; TLC checks Sound and AttachSound over the whole integer box as a state machine; the complete (descriptor, query) tables are replayed on rangeproof.Proof and every attachment case (transplants, disclosed/non-existent/beyond-largest index, duplicates, field alterations, re-verification of a reused object, false statements at the boundary) on real credentials.",
+   note="Integer box m<=12 (thorough 24), toy word size 9 bits for the uint->int64 conversion; algebraic soundness of the Sigma protocol itself is assumed; 1024-bit keys.",
+   tech="TLA+ transcription checked by TLC on a finite box; generated tables and adversarial cases replayed on the real code"),
+ "C13": dict(engine="RangeStmt.tla", design="5/C13, 13",
+   text="The Complete invariant of RangeStmt.tla (every true statement in the limits yields a non-negative, correctly shaped difference and a descriptor that proves and reports the statement) is checked by TLC on the box; emitted statements and a dense window around m = bound, factors 1..8, both signs, both splitters, several statements per proof, random differences up to 2^256, every squares-table entry and every n < 2^16 (2^20) through SumFourSquares are executed on the real prover and verifier.",
+   note="Documented limit of the squares table taken from the code (scaled value <= table limit); 1024-bit keys.",
+   tech="TLA+ transcription checked by TLC on a finite box; generated statements replayed through the real prover and verifier"),
  "C10": dict(engine="RevAuth.tla", design="5/C10, 13",
    text="TLC explores every update message an adversary can assemble from a genuine one by up to 2 mutations plus JSON/CBOR transport in RevAuth.tla and checks that the transcribed acceptance predicates imply authenticity; every single-mutation message (thorough: plus a seeded sample of double mutations) is materialised byte for byte and fed to Update.Verify, Witness.Update, EventList.Verify, Update.Prepend and Hash.Equal in memory and after real JSON/CBOR round trips.",
    note="Hash injective and signatures unforgeable in the model; chains of 3 events, 2 chains under one key; toy moduli; the unserialised SignedAccumulator.Accumulator memo is clear on received messages.",
